@@ -1379,7 +1379,7 @@ def needle_pass(ctx, desc, rng):
     if ok:
         arr_c = call_quantity(ctx, env, "cotangent", spec_c, rng.random() < 0.5, True, None, {}, mesh=m, check_left=False)
         if arr_c is not None:
-            _needle_cot(ctx, "cotangent_from_cached_angles", arr_c, exp_c, tol_c)
+            _needle_cot(ctx, "cotangent_from_cached_angles", arr_c, exp_c, 2 * tol_c)   # + rounding of angle + pi/2 and of tan
     Rn = geomq.topo_counts(len(V), F)
     d = call_quantity(ctx, env, "angle_defects", SURF_FUNCS["angle_defects"], rng.random() < 0.5, rng.random() < 0.5, None, {}, check_left=False)
     if d is not None:
